@@ -156,7 +156,9 @@ var errSeeds = []string{"abs(`\"a\"`)", "length(`1`)", "nosuch(@)", "abs()", "`[
 	// projections are parenthesised so that a prefix context (`!%s`) cannot re-associate them
 	"map(&abs(@), `[\"x\",1]`)", "map(&abs(@), `[1,\"x\",2]`)", "(`[\"x\",1,2]`[*].abs(@))", "(`[1,2,\"x\"]`[?abs(@) > `0`])", "(`[[1],[\"x\"],[2]]`[].abs(@))",
 	"sort_by(`[{\"a\":\"x\"},{\"a\":1},{\"a\":2}]`, &abs(a))", "max_by(`[{\"a\":\"x\"},{\"a\":1}]`, &abs(a))", "(`{\"p\":\"x\",\"q\":1}`.*.abs(@))", "`[]`[::0]",
-	"(`[1,\"x\"]`[0:2].abs(@))", "[abs(`\"x\"`), `1`]", "{p: abs(`\"x\"`), q: `1`}"}
+	"(`[1,\"x\"]`[0:2].abs(@))", "[abs(`\"x\"`), `1`]", "{p: abs(`\"x\"`), q: `1`}",
+	// a function applied to a null current node after a dot / index (the left side is null, the right side still runs)
+	"`null`.abs(@)", "`null`.nosuch(@)", "(`[]`[0].length(@))", "`{}`.k.abs(@)"}
 
 // One-hole contexts in which the hole must be evaluated (document: errDoc).
 var strictCtx = []string{"%s", "(%s)", "%s.a", "%s[0]", "%s[*]", "%s[]", "%s[?a]", "%s.*", "%s[1:]", "%s | a", "a | %s", "%s || a", "%s && a", "!%s",
@@ -387,6 +389,13 @@ func streamPipe(seed uint64, idx int) caseT {
 	g.single = true
 	doc := topDoc(g)
 	a := g.expr(doc, 2+g.r.intn(3))
+	if g.r.chance(6) {
+		// A fails on a LATER element only; B looks at the first result
+		as := g.r.pick([]string{"`[1,\"x\"]`[?abs(@) > `0`]", "`[1,2,\"x\"]`[*].abs(@)", "`[[1],[\"x\"]]`[].abs(@)", "map(&abs(@), `[1,\"x\"]`)",
+			"`[{\"a\":1},{\"a\":\"x\"}]`[?abs(a) > `0`].a", "`[1,\"x\"]`[0:2].abs(@)"})
+		bs := g.r.pick([]string{"[0]", "[:1]", "length(@)", "@[0]", "[0] | @", "not_null(@)"})
+		return caseT{lines: []string{"P " + hexField(as) + " " + hexField(bs) + " " + canonOf(doc)}}
+	}
 	av, ok := evalSafe(a.text(), doc)
 	if !ok {
 		av = nil
@@ -442,6 +451,11 @@ var numberish = []string{"inf", "-inf", "+inf", "Inf", "infinity", "-Infinity", 
 // strings, functions on empty inputs, nested empties.
 func streamJSONish(seed uint64, idx int) caseT {
 	g := genFor(seed, "jsonish", idx)
+	if idx >= len(numberish)*3 && idx < len(numberish)*4 {
+		// the text itself as a backtick literal: it is JSON or the expression does not compile
+		s := strings.Replace(numberish[idx%len(numberish)], "`", "", -1)
+		return caseT{lines: []string{"C " + hexField("`"+s+"`"), "S " + hexField("[`"+s+"`, `1`]") + " null"}}
+	}
 	if idx < len(numberish)*3 {
 		s := numberish[idx%len(numberish)]
 		var e string
